@@ -484,6 +484,11 @@ def location_table_fresh_rule(idx, r):
     memo = [s_ for s_ in iter_stores(g.node) if s_.chain and s_.chain.startswith("self.")] + [c for c in iter_calls(g.node) if dotted(c.func) in ("self._setCache", "self._getCached")]
     lc = [s_ for s_ in iter_stores(g.node) if s_.attr == "locContents" and isinstance(s_.node, ast.Name) and s_.value is not None]
     fresh = bool(lc) and all(isinstance(s_.value, ast.Call) and dotted(s_.value.func) == "self.makeLocationLookup" for s_ in lc)
+    core = idx.cls(CORE)
+    for name, m_ in sorted(core.methods.items()):
+        fills = [c for c in iter_calls(m_.node) if dotted(c.func) == "self._setCache"] + [s_.stmt for s_ in iter_stores(m_.node) if s_.kind == "subscript" and s_.chain == "self.cached"]
+        r.require(not fills, f"Core.{name}:nothing-cached-on-the-core", m_, node=fills[0] if fills else None,
+                  msg=f"Core.{name} keeps a result in the composite cache, which Core.add / removeAssembly / moveTo never drop: whatever it derives from the occupied locations is stale after the next shuffle or edge-assembly change")
     r.require(not memo and fresh, "getLocationContents:table-built-for-this-call", g, node=(getattr(memo[0], "stmt", memo[0]) if memo else (lc[0].stmt if lc else None)),
               msg="the location table is remembered on the core between calls: after a swap, a cascade or added/removed edge assemblies the next look-up answers with the assemblies that USED to be there")
 
@@ -547,6 +552,49 @@ def r14_one_number_per_assembly(idx, r):
         raise AnchorMissing("uses of the running number in the two normalizeNames")
 
 
+def r16_chains_pool_and_registry(idx, r):
+    """(a) processMoveList records every chain it finds - load chains and loop chains alike - in `alreadyDone` on every path, so that the
+    locations of a chain do not start another chain (a pure in-core loop found once per member is rotated back to where it started).
+    (b) whether Core.getAssemblies(includeSFP=True) looks into the pool depends on the request and on the pool existing - not on the
+    tracking switch: assemblies that ARE in the pool must stay findable by name after tracking was switched off.  (c) Reactor.add registers an
+    ex-core structure under its lower-cased, blank-free name: the name tested and the key stored are one value."""
+    f = idx.method(FH, "processMoveList")
+    apps = [c for c in iter_calls(f.node) if call_attr(c) == "append" and norm(c.func.value) in ("loadChains", "loopChains") and c.args]
+    if len(apps) != 2:
+        raise AnchorMissing("processMoveList: loadChains.append / loopChains.append")
+    for c in apps:
+        chain = norm(c.args[0])
+        # the statement list that holds the append: the chain is recorded later in that same list, before anything leaves it
+        block = next((b_ for x in ast.walk(f.node) for b_ in (getattr(x, "body", None), getattr(x, "orelse", None)) if isinstance(b_, list) and any(isinstance(st_, ast.Expr) and st_.value is c for st_ in b_)), None)
+        ok = False
+        if block is not None:
+            i0 = next(i for i, st_ in enumerate(block) if isinstance(st_, ast.Expr) and st_.value is c)
+            for st_ in block[i0 + 1:]:
+                if isinstance(st_, (ast.Continue, ast.Break, ast.Return, ast.Raise)):
+                    break
+                if isinstance(st_, ast.Expr) and isinstance(st_.value, ast.Call) and norm(st_.value.func) in ("alreadyDone.extend", "alreadyDone.append") and st_.value.args and norm(st_.value.args[0]) == chain:
+                    ok = True
+                    break
+        r.require(ok, f"processMoveList:{norm(c.func.value)}:chain-marked-done", f, node=c,
+                  msg=f"a chain appended to {norm(c.func.value)} is not recorded in alreadyDone on every path: each of its locations starts the same chain again, and the repeated shuffle applies it once per member")
+    g = idx.method(CORE, "getAssemblies")
+    ext = [c for c in iter_calls(g.node) if call_attr(c) == "extend" and "sfp" in norm(c).lower()]
+    if len(ext) != 1:
+        raise AnchorMissing("Core.getAssemblies: the pool extension")
+    conds = [norm(t) for t, _p in path_conditions(g.node, ext[0])]
+    r.require(not any("_trackAssems" in c_ or "trackAssems" in c_ for c_ in conds), "getAssemblies:pool-included-whenever-asked", g, node=ext[0],
+              msg=f"the pool is only looked into under {conds}: with tracking switched off the assemblies that are still in the pool drop out of the name tables at the next regeneration")
+    h = idx.method("armi.reactor.reactors.Reactor", "add")
+    sts = [s_ for s_ in iter_stores(h.node) if s_.kind == "subscript" and norm(s_.node.value) == "self.excore"]
+    if len(sts) != 1 or not isinstance(sts[0].node.slice, ast.Name):
+        raise AnchorMissing("Reactor.add: self.excore[key] = container")
+    key = sts[0].node.slice.id
+    defs = [x for x in walk_local(h.node) if isinstance(x, ast.Assign) and any(norm(t) == key for t in x.targets)]
+    first = defs[0] if defs else None
+    r.require(first is not None and ".lower()" in norm(first.value) and '.replace(" ", "")' in norm(first.value).replace("'", '"'), "Reactor.add:structure-registered-under-its-normalised-name", h, node=first,
+              msg=f"the registry key is `{norm(first.value) if first is not None else None}`: a pool system named `SFP` is registered under that spelling, `excore.get('sfp')` finds nothing, and discharged assemblies are purged instead of pooled")
+
+
 def r15_pairing(idx, r):
     from ..pairing import pairing_rule
     pairing_rule(idx, r, ["armi.physics.fuelCycle.fuelHandlers", "armi.reactor.cores", "armi.reactor.spentFuelPool", "armi.reactor.assemblies", "armi.reactor.reactors"], 80)
@@ -584,3 +632,5 @@ def run(idx, chk):
                  necessary="every block is found under a name that no other block carries")
     chk.run_rule("R14.15", "arguments stand at the parameter they are named after; sibling calls forward the same pass-through parameters", lambda r: r15_pairing(idx, r), floor=1,
                  necessary="the two assemblies of a swap are not exchanged with their locations")
+    chk.run_rule("R14.16", "every chain found is marked done; the pool is included whenever asked for; ex-core structures are registered under the normalised name", lambda r: r16_chains_pool_and_registry(idx, r), floor=4,
+                 necessary="a repeated shuffle puts every assembly where the file says; pool assemblies stay findable by name; none is lost")
